@@ -178,11 +178,14 @@ fn file_case(rng: &mut Rng, idx: usize, dir: &std::path::Path) -> String {
     for v in &data {
         f.write_all(&(*v as u32).to_le_bytes()).unwrap();
     }
+    // a file may end in the middle of a sample: the stray bytes are not a sample, in any repetition
+    let stray = if rng.chance(1, 3) { rng.range(1, 3) } else { 0 };
+    f.write_all(&vec![0xEEu8; stray]).unwrap();
     drop(f);
     let (mut b, o) = FileSource::<u32>::new(&path).unwrap();
     b.repeat(repeat_of(rep));
     let (got, eof, late, panic) = run_source::<u32>(Box::new(b), o, rng, if rep == INF { 3 * len.max(1) + 10 } else { usize::MAX });
-    check_repeated("file", &format!("#{idx} len={len} repeat={rep}"), &data, rep, &got, eof, late, panic)
+    check_repeated("file", &format!("#{idx} len={len} stray={stray} repeat={rep}"), &data, rep, &got, eof, late, panic)
 }
 
 fn sigmf_case(rng: &mut Rng, idx: usize, dir: &std::path::Path) -> String {
@@ -252,6 +255,35 @@ fn sigmf_archive_case(rng: &mut Rng, idx: usize, dir: &std::path::Path) -> Strin
     check_repeated("sigmf-archive", &format!("#{idx} len={len} repeat={rep}"), &data, rep, &got, eof, late, panic)
 }
 
+/// SigMF recording of f32 samples that ends in the middle of a sample.
+fn sigmf_f32_case(rng: &mut Rng, idx: usize, dir: &std::path::Path) -> String {
+    let rep = *rng.pick(&[0u64, 1, 1, 2, 3, INF]);
+    let len = *rng.pick(&[0usize, 1, 5, 100, 1023, 1025, 2500]);
+    let stray = rng.below(4);
+    let data: Vec<u64> = (0..len).map(|_| ((rng.below(2001) as f32 - 1000.0) / 8.0).to_bits() as u64).collect();
+    let base = dir.join(format!("recf{idx}"));
+    let mut f = std::fs::File::create(dir.join(format!("recf{idx}-data"))).unwrap();
+    for v in &data {
+        f.write_all(&(*v as u32).to_le_bytes()).unwrap();
+    }
+    f.write_all(&vec![0xEEu8; stray]).unwrap();
+    drop(f);
+    std::fs::write(
+        dir.join(format!("recf{idx}-meta")),
+        r#"{"global": {"core:datatype": "rf32_le", "core:version": "1.1.0"}, "captures": [], "annotations": []}"#,
+    )
+    .unwrap();
+    let label = format!("#{idx} len={len} stray={stray} repeat={rep}");
+    let built = quiet(|| SigMFSourceBuilder::<f32>::new(base.clone()).repeat(repeat_of(rep)).build());
+    let (b, o) = match built {
+        Ok(Ok(x)) => x,
+        Ok(Err(e)) => return format!("!src sigmf-f32 {label}\tFAIL cannot open: {e}"),
+        Err(p) => return format!("!src sigmf-f32 {label}\tFAIL panic in build: {p}"),
+    };
+    let (got, eof, late, panic) = run_source::<f32>(Box::new(b), o, rng, if rep == INF { 3 * len.max(1) + 10 } else { usize::MAX });
+    check_repeated("sigmf-f32", &label, &data, rep, &got, eof, late, panic)
+}
+
 pub fn run(args: &[String]) -> Vec<String> {
     let seed = arg_usize(args, "--seed", 1) as u64;
     let cases = arg_usize(args, "--cases", 300);
@@ -272,6 +304,8 @@ pub fn run(args: &[String]) -> Vec<String> {
         out.push(sigmf_case(&mut r, i, dir.path()));
         let mut r = rng.fork();
         out.push(sigmf_archive_case(&mut r, i, dir.path()));
+        let mut r = rng.fork();
+        out.push(sigmf_f32_case(&mut r, i, dir.path()));
     }
     out
 }
